@@ -21,6 +21,12 @@ Theorem repr_reads_back f txt :
 Proof. exact (FloatTextProofs.repr_reads_back f txt). Qed.
 Print Assumptions repr_reads_back.
 
+(* so different reals print differently - the two zeros included *)
+Theorem repr_injective f g txt :
+  repr_float f = Some txt -> repr_float g = Some txt -> f = g.
+Proof. exact (FloatTextProofs.repr_injective f g txt). Qed.
+Print Assumptions repr_injective.
+
 (* the digits the printer settles on have no trailing zero and read back to the double (rounding to nearest, ties to even, computed exactly) *)
 Theorem shortest_reads_back m e c t :
   shortest m e = Some (c, t) -> 0 < c /\ c mod 10 <> 0 /\ SFcompare (float_of_decimal false c t) (S754_finite false m e) = Some Eq.
